@@ -26,9 +26,9 @@ import (
 //
 //	a, b := f()
 //	>>>
-//	ʌa1 := a
-//	ʌa1, b := f()
-//	a = ʌa1
+//	ʌ1a := a
+//	ʌ1a, b := f()
+//	a = ʌ1a
 func (r *yieldRewriter) rewritePartialRedeclare(c *astutil.Cursor, n *ast.AssignStmt) {
 	if n.Tok != token.DEFINE || c.Index() < 0 {
 		return
@@ -61,7 +61,8 @@ func (r *yieldRewriter) rewritePartialRedeclare(c *astutil.Cursor, n *ast.Assign
 		// whatever the rhs is (untyped constant, nil, untyped bool, tuple element ...),
 		// and is then redeclared (assigned) by the original stmt in the same scope
 		r.symCnt++
-		tmp := cstYieldFromRangeVar + id.Name + strconv.Itoa(r.symCnt)
+		// counter first: ʌ2a1 / ʌ12a, a1 + 2 and a + 12 must not clash
+		tmp := cstYieldFromRangeVar + strconv.Itoa(r.symCnt) + id.Name
 		c.InsertBefore(X.Define(X.Ident(tmp), X.Ident(id.Name)))
 		n.Lhs[i] = X.Ident(tmp)
 		assign.Lhs = append(assign.Lhs, id)
